@@ -9,6 +9,21 @@ from ..absint import Rat, Interval, SymFact, Facts, INF, Unsupported
 from ..selftest import Mutant, Benign
 from . import _c12_matrix as mx
 
+
+def _func(idx, qual):
+    """FuncInfo of `pkg.mod.Class.method`, looked up along the MRO when the class itself does not define it
+    (constructors / methods moved into a shared base class)."""
+    if idx.has_func(qual):
+        return idx.func(qual)
+    cq, _, name = qual.rpartition('.')
+    ci = idx.classes.get(cq)
+    if ci is not None:
+        f = idx.lookup(ci, name)
+        if f is not None and f.module.name.startswith('mitxgraders.') and f.cls is not None \
+                and f.cls.qualname != 'mitxgraders.baseclasses.ObjectWithSchema':
+            return f
+    return idx.func(qual)          # raises "anchor vanished"
+
 ID = 'C12'
 SAMPLING = 'mitxgraders/sampling.py'
 MATRIX = 'mitxgraders/matrixsampling.py'
@@ -97,7 +112,14 @@ def _single_return(idx, fi):
 # ----------------------------------------------------------------------------- D1 intervals
 def _ctor_bounds(idx, qual):
     """Post-state of start/stop after the constructor: [(path, start', stop', ordered?)] and whether super().__init__ runs."""
-    fi = idx.func(qual + '.__init__')
+    ci = idx.cls(qual)
+    init = idx.lookup(ci, '__init__')
+    if init is not None and init.cls is not None and init.cls.qualname == 'mitxgraders.baseclasses.ObjectWithSchema':
+        # no constructor of its own any more: only the schema validation runs, the bounds stay as given
+        fi = next(iter(ci.methods.values()), init)
+        return fi, [(ai.SPath([], 'fall', None, None, None, {}, {}, [(('opaque', 'call:super().__init__ (inherited)'), None)], {}),
+                     ('cfg', 'start'), ('cfg', 'stop'), False)]
+    fi = _func(idx, qual + '.__init__')
     try:
         paths = ai.sym_exec(idx, fi)
     except Unsupported as e:
@@ -190,7 +212,7 @@ def d1_intervals(ctx, idx):
 
     r = ctx.rule('D1.REAL', 'RealInterval.gen_sample is the affine image of a uniform [0,1) draw between start and stop', floor=1)
     with r:
-        fi = idx.func(S + 'RealInterval.gen_sample')
+        fi = _func(idx, S + 'RealInterval.gen_sample')
         p = _single_return(idx, fi)
         env = SampleRat()
         construct = 'RealInterval.gen_sample'
@@ -215,7 +237,7 @@ def d1_intervals(ctx, idx):
 
     r = ctx.rule('D1.INT', 'IntegerRange.gen_sample draws exactly the integers start..stop (randint with high = stop + 1)', floor=2)
     with r:
-        fi = idx.func(S + 'IntegerRange.gen_sample')
+        fi = _func(idx, S + 'IntegerRange.gen_sample')
         p = _single_return(idx, fi)
         where = lib.loc(fi, p.stmt)
         v = p.value
@@ -341,7 +363,7 @@ def d1_types(ctx, idx):
                             'interval' % (short(arg) if arg is not None else 'Number'), ci.loc, expected='NumberRange(int)')
             else:
                 r.undecided('%s.schema_config' % cls, 'number type `%s` not recognised' % short(arg), ci.loc)
-        nr = idx.func(V + 'NumberRange')
+        nr = _func(idx, V + 'NumberRange')
         if len(nr.params) != 1:
             raise AnalysisError('NumberRange should take (number_type)')
         try:
@@ -375,14 +397,14 @@ def d1_types(ctx, idx):
                         'IntegerRange([1.5, 3.5]) is validated as plain numbers, randint truncates the bounds and the samples leave the declared '
                         'interval' % (ai.show(alts[0][2][0]) if alts[0][2] else 'its default Number'), nr.loc, expected='number_range_alternate(number_type)')
             return
-        alt = idx.func(V + 'number_range_alternate')
+        alt = _func(idx, V + 'number_range_alternate')
         try:
             ap = ai.sym_exec(idx, alt, env={alt.params[0]: T})
             if len(ap) != 1 or ap[0].kind != 'ret' or ap[0].value[0] != 'closure':
                 raise Unsupported('number_range_alternate does not return a local validator function')
             name = ap[0].value[1]
             node, env, store = ap[0].closures[name]
-            inner = idx.func(alt.qualname + '.<locals>.' + name)
+            inner = _func(idx, alt.qualname + '.<locals>.' + name)
             qs = [q for q in ai.sym_exec(idx, inner, stmts=node.body, env=env, store=store) if q.kind == 'ret']
         except Unsupported as e:
             r.undecided(construct, str(e), alt.loc)
@@ -482,7 +504,7 @@ def d1_complex(ctx, idx):
     spec = {'ComplexRectangle': ('re', 'im'), 'ComplexSector': ('modulus', 'argument')}
     with r:
         for cls, (k1, k2) in spec.items():
-            ctor = idx.func(S + cls + '.__init__')
+            ctor = _func(idx, S + cls + '.__init__')
             try:
                 cpaths = ai.sym_exec(idx, ctor)
             except Unsupported as e:
@@ -497,7 +519,7 @@ def d1_complex(ctx, idx):
             for attr, key in sorted(attr_keys.items()):
                 if key not in (k1, k2):
                     r.violation('%s.__init__: self.%s' % (cls, attr), 'built from config[%r], which is not an option of the set' % key, ctor.loc)
-            gs = idx.func(S + cls + '.gen_sample')
+            gs = _func(idx, S + cls + '.gen_sample')
             p = _single_return(idx, gs)
             where = lib.loc(gs, p.stmt)
             ev = CxEval(attr_keys)
@@ -532,7 +554,7 @@ def d1_choice(ctx, idx):
     r = ctx.rule('D1.CHOICE', 'DiscreteSet / SpecificFunctions return a member of the configured collection', floor=2)
     with r:
         for cls in ('DiscreteSet', 'SpecificFunctions'):
-            fi = idx.func(S + cls + '.gen_sample')
+            fi = _func(idx, S + cls + '.gen_sample')
             p = _single_return(idx, fi)
             v = p.value
             cfg = ('attr', ('self',), 'config')
@@ -571,7 +593,7 @@ def d2_random_function(ctx, idx):
     r_sh = ctx.rule('D2.SHAPE', 'the function returns a MathArray of length output_dim iff output_dim > 1, else a scalar', floor=2)
     r_bd = ctx.rule('D2.BOUND', 'values stay within center +/- amplitude: the divisor equals the number of summed sinusoids', floor=2)
     r_fx = ctx.rule('D2.FIXED', 'the coefficients are drawn once, outside the returned function, whose results do not share a buffer', floor=2)
-    fi = idx.func(RF + '.gen_sample')
+    fi = _func(idx, RF + '.gen_sample')
     inner_paths = []
     with r_ar:
         facts = ai.schema_facts(idx, idx.cls(RF))
@@ -602,7 +624,7 @@ def d2_random_function(ctx, idx):
                     r_ar.check(nin == ('cfg', 'input_dim'), 'RandomFunction.gen_sample: nin', "nin = config['input_dim']",
                                'the function is tagged with nin = %s instead of input_dim' % ai.show(nin), fi.loc,
                                expected="config['input_dim']", found=ai.show(nin))
-            inner = idx.func(fi.qualname + '.<locals>.' + name)
+            inner = _func(idx, fi.qualname + '.<locals>.' + name)
             if not inner.node.args.vararg or inner.node.args.args:
                 r_ar.undecided('random_function', 'signature is not (*args)', inner.loc)
                 continue
@@ -919,6 +941,7 @@ MUTANTS = [
            note='SquareMatrices(shape=(3,3)) is accepted and draws dimension x dimension'),
     Mutant('int-low-plus-one', SAMPLING, "low=self.config['start'],", "low=self.config['start'] + 1,", 'D1'),
     Mutant('int-swap-removed', SAMPLING, _INT_CTOR, "        super(IntegerRange, self).__init__(config, **kwargs)\n", 'D1'),
+    Mutant('int-constructor-deleted', SAMPLING, '    def __init__(self, config=None, **kwargs):\n        """\n        Validate the specified configuration.\n        First apply the voluptuous validation.\n        Then ensure that the start and stop are the right way around.\n        """\n' + _INT_CTOR, '', 'D1'),
     Mutant('int-swap-inverted', SAMPLING, "super(IntegerRange, self).__init__(config, **kwargs)\n        if self.config['start'] > self.config['stop']:",
            "super(IntegerRange, self).__init__(config, **kwargs)\n        if self.config['start'] < self.config['stop']:", 'D1'),
     Mutant('int-swap-loses-bound', SAMPLING, _INT_CTOR, _INT_CTOR.replace("= self.config['stop'], self.config['start']", "= self.config['stop'], self.config['stop']"), 'D1'),
